@@ -85,7 +85,9 @@ pub fn run(n: usize, rng: &mut Rng, rep: &mut Report) {
     for _ in 0..n {
         let scheme = *rng.pick(&["javascript", "vbscript", "file", "data", "data:text/html", "data:image/svg+xml", "data:image/png", "http", "data:image/gif;x", "JaVaScRiPt"]);
         let lead = *rng.pick(&["", "", "", " ", "&#32;", "&#9;", "\\ ", "&#1;", "&Tab;", "%20", "&nbsp;"]);
-        let raw = format!("{}{}alert(1)", lead, disguise(rng, scheme));
+        // bodies that imitate the data-image exception or contain further scheme-like text
+        let body = *rng.pick(&["alert(1)", "alert(1)", "/*image/png;*/alert(1)", "image/gif;base64,AAAA", "text/html;image/png;base64,AAAA", "//x#data:image/jpeg;", "%0Aalert(1)//image/webp;", "x"]);
+        let raw = format!("{}{}{}", lead, disguise(rng, scheme), body);
         let plainly_dangerous = lead.is_empty() && raw.to_ascii_lowercase().starts_with(&format!("{}:", scheme.to_ascii_lowercase())) && dangerous(&raw);
         let pos = rng.below(8);
         let d = match pos {
